@@ -2,8 +2,9 @@ P = {
     "gens": ["C15report"],
     "theorems": ["C15_truthful", "C15_events_sound", "C15_shape", "C15_no_report_about_admin_record", "C15_no_report_to_self",
                  "C15_no_cascade", "C15_report_bundle_reports_to_self", "C15_checker_sound", "C15_model_passes_checker", "C15_wire_names_exact_id", "C15_wire_roundtrip"],
-    "rule": "real routing.Core (epidemic) with three scripted mock convergence senders, a mock agent with two endpoints and a "
-            "registered CLA endpoint; one bundle per case (built as a struct, so ill-formed flag combinations reach the Core too): "
+    "rule": "real routing.Core (epidemic) with three scripted mock convergence senders, a mock agent with two endpoints (one outside "
+            "the node's name) and six listener endpoint IDs registered in a drawn order (three CLA types, several per type, dtn and "
+            "ipn names); one bundle per case (built as a struct, so ill-formed flag combinations reach the Core too): "
             "(a) all 2^6 combinations of {reception, forward, delivery, deletion, status-time, administrative-record} x fragment/whole "
             "x outcome class {delivered to an agent (2 endpoints), local but no agent (2), forwarded, forwarded with only one of "
             "three sends succeeding, all sends failed, direct delivery ok/failed, hop limit exceeded / not yet / irrelevant because local, "
@@ -11,9 +12,13 @@ P = {
             "foreign / dtn:none source, submitted to a local agent, one unknown block x 16 block-flag sets, two unknown blocks x 9 flag "
             "pairs remote/local} (quick: a sample of the flag grid for the unknown-block classes); 1 in 16 received bundles is "
             "re-received (duplicate); (b) report-to in {peer node, elsewhere, node of another peer, node ID, other endpoint of the node, "
-            "agent endpoints (2), CLA endpoint, dtn:none, ipn} x receiver in {node ID, dtn:none, agent endpoint, CLA endpoint, foreign}; "
+            "agent endpoints (2), an endpoint under each listener ID (dtn and ipn), dtn:none, foreign ipn} x receiver in {node ID, dtn:none, agent endpoint, CLA endpoint, foreign}; "
             "(c) receive with nobody to forward to, then a peer appears (retry from the store), with and without the lifetime passing "
-            "in between (whole and fragment, 6 flag sets). Observed: the status reports sent: the report bundle is parsed from the "
+            "in between (whole and fragment, 6 flag sets); (d) 6 (thorough 60) nodes with a drawn configuration - no listener ID, "
+            "two of one CLA type, three of one type plus another, up to six drawn over four types with dtn / ipn names and repeats, "
+            "a second agent with endpoints outside the node's name - and per node report-to = an endpoint under every listener ID, "
+            "every agent endpoint, the node ID, foreign ones x drawn outcome classes, plus a bundle destined to each listener ID "
+            "(the case carries the configuration; evidence tags listener-ids=<n>, report-to-listener-id-first/second/later). Observed: the status reports sent: the report bundle is parsed from the "
             "wire bytes given to the mock CLAs, its payload (the administrative record) goes into the case as BYTES and is decoded "
             "by the model's reference decoder (AuxCbor.dec_admrec) in the driver - status items, reason and the reference bundle "
             "ID (source, creation time, sequence number, fragment flag, offset, total length) judged by the checker come from "
